@@ -1,14 +1,7 @@
 (* C14 - failures are examined, poison the store, and a poisoned store refuses commits before
-   touching the rollback log (source-order obligations regenerated on every run). *)
+   touching the rollback log.  The facts about which results Sync::sync and the write-out helpers
+   examine are regenerated from the source on every run (Gen/SrcFacts.v). *)
 From Nomt Require Import SrcFacts_proofs.
-
-Theorem C14_fault_handling_order : fault_handling_ok = true.
-Proof. exact SrcFacts_proofs.fault_handling_ok_true. Qed.
-Print Assumptions C14_fault_handling_order.
-
-Theorem C14_commit_entry_order : commit_orders_ok = true.
-Proof. exact SrcFacts_proofs.commit_orders_ok_true. Qed.
-Print Assumptions C14_commit_entry_order.
 
 (* ------------------------------------------------------------------------------------------ *)
 (* The fault model of commit / rollback (Fault.v: the `?`-structured control flow of Sync::sync,   *)
